@@ -377,7 +377,11 @@ class TransformRunner(aggregates.Aggregatable, Iterable[_ValueT]):
     """Gets the result from the aggregation state."""
     result = tree.TreeMapView()
     for key, fn_state in state.items():
-      outputs = self.agg_fns[key.metrics].get_result(fn_state)
+      # Only the states of this runner: the merged state of a chain also holds
+      # the states of the other runners (see merge_states).
+      if (agg_fn := self.agg_fns.get(key.metrics)) is None:
+        continue
+      outputs = agg_fn.get_result(fn_state)
       flattened_keys = key.metrics
       # Only convert str key to MetricKey format when there is slices.
       if key.slice != tree_fns.SliceKey():
